@@ -169,6 +169,17 @@ def check_case(ctx, case):
         by_name = dict((str(g), g) for g in lib)
         mapping = dict((by_name.get(k, k), c) for k, c in pairs)
         ctx.count('mappings_keyed_by_group_objects')
+    ct = case.get('counttype') or ['py', 'py', 'py', 'numpy', 'float',
+                                   'fraction'][len(repr(case['mapping'])) % 6]
+    if ct != 'py':
+        import fractions
+        conv = {'numpy': lambda c: (np.int64(c) if isinstance(c, int)
+                                    else np.float64(c)),
+                'float': float,
+                'fraction': lambda c: fractions.Fraction(c)
+                if isinstance(c, int) else c}[ct]
+        mapping = dict((k, conv(c)) for k, c in mapping.items())
+        ctx.klass('count type ' + ct)
     o = observe(lib.Estimate, mapping, 'thermochem')
     ctx.evals()
     if outside:
